@@ -404,7 +404,7 @@ def main():
     rep = common.Report(PID, "model_checking")
     rep.rule = ("one case = one API-built program (value kind/type tag x slot, mode lists, multi-operation mixes) serialised and re-loaded symbolically, "
                 "all numeric values solver variables (signed); 'edge' cases are concrete instantiations of special floats (negative zero, subnormal, 1e+-300)")
-    rep.bounds = {"arrays": "<=2x3", "lists": "<=4 elements", "operations": "<=2 (quick) / <=3 (thorough)", "strings": "fixed quote-free samples"}
+    rep.bounds = {"arrays": "<=2x3 symbolic, 1x12 and 11x1 symbolic, up to 12x10 / 100x1 concrete, 18 concrete views (transposed, reversed, strided, Fortran order, rot90)", "lists": "<=4 elements", "operations": "<=2 (quick) / <=3 (thorough)", "strings": "fixed quote-free samples"}
     rep.assumptions = [
         "floats are reals in the symbolic runs: exponent-format and special values are covered by the lexeme lemma (C01/C09 O2) and the concrete edge cases",
         "text forms of proxies are learned from the real types at run time (str/repr/format of an exemplar), placeholders stand for the digits",
